@@ -132,7 +132,15 @@ func editResync(r *Run) {
 	} else {
 		ss := []int{4, 8, 12, 16, 20, 36, 60, 64, 100, 256, 500, 1000}
 		c.S = ss[t.Draw(len(ss), "S")]
+		if t.Bool(1, 500, "huge-window") {
+			// window sizes just above multiples of 16 KiB
+			c.S = []int{16384, 16388, 32768, 32772, 65540}[t.Draw(5, "huge-S")]
+			r.Probe("window>=16KiB")
+		}
 		k := 1 + t.Draw(7, "slices")
+		if c.S > 4096 {
+			k = 1 + t.Draw(3, "slices-huge")
+		}
 		c.N1 = k * c.S
 		if t.Bool(1, 2, "ragged") {
 			c.N1 -= 1 + t.Draw(c.S-1, "short")
